@@ -308,7 +308,7 @@ pub fn run(ctx: &Ctx) {
         ctx,
         Pt {
             name: "c09.case",
-            cases: ctx.scale(20_000, 600_000),
+            cases: ctx.scale(300_000, 1_500_000),
             max_len: 400,
             decode: &decode,
             oracle: &oracle,
